@@ -107,7 +107,7 @@ class CallMixin(ExprMixin):
 
     def eval_old(self, node) -> V:
         snap = self.entry
-        self.old_stack.append({'heap': snap['heap'], 'ghost': snap['ghost'], 'env': snap['env']})
+        self.old_stack.append({'heap': snap['heap'], 'ghost': snap['ghost'], 'env': snap['env'], 'ctx': snap.get('ctx', {})})
         try:
             r = self.eval(node)
             return V(r.ty, r.term, None, r.py)   # a snapshot: never re-read through its location
@@ -536,7 +536,12 @@ class CallMixin(ExprMixin):
         rc = C.raises[which - 1]
         if rc.when is not None:
             self.assume(self.spec_bool(rc.when, env, entry=pre))
+            if self.ch.fresh_part and not self.ch.feasible(self.st.pc, z3.BoolVal(True)):
+                raise DeadPath('exceptional precondition of %s infeasible here' % C.key)
         exc = self.fresh_exc(rc.cls, base='exc_' + C.key.split('.')[-1])
+        if 'CancelledError' in ((rc.cls,) if isinstance(rc.cls, str) else rc.cls) and getattr(rc, 'delivered', True):
+            self.st.flags['cancelled'] = True
+            self.st.trace.append('cancelled-in:' + C.key)
         env2 = dict(env)
         env2['raised'] = exc
         for cl in list(rc.ensures) + list(C.exits_ensure):
@@ -549,8 +554,26 @@ class CallMixin(ExprMixin):
         if C.spec_term is not None:
             if callable(C.spec_term):
                 return C.spec_term(self, base)
+            if C.spec_term == '@body':
+                return self.body_as_spec(C, name, base)
             return self.spec_eval(C.spec_term, {name: base}, entry=self.entry)
         return self.apply_contract(C, {name: base})
+
+    def body_as_spec(self, C, pname, base: V) -> V:
+        """A one-line pure view (`return <expr>`): its own expression, evaluated in spec mode, is its specification."""
+        from . import extract
+        node, _ = extract.find_function(C.file, C.qual)
+        body = [s for s in node.body if not (isinstance(s, ast.Expr) and isinstance(s.value, ast.Constant))]
+        if len(body) != 1 or not isinstance(body[0], ast.Return):
+            raise Unsupported('%s is no longer a single return expression' % C.key)
+        saved = self.st.env
+        self.st.env = {pname: base}
+        self.spec_mode += 1
+        try:
+            return self.eval(body[0].value)
+        finally:
+            self.spec_mode -= 1
+            self.st.env = saved
 
     def await_value(self, v: V) -> V:
         if v.ty.kind == 'py':
